@@ -30,7 +30,8 @@ pub struct World {
 const INT_POOL: [i128; 6] = [-2, -1, 0, 1, 2, 3];
 const INT_EXTREME: [i128; 5] =
     [i64::MIN as i128, i64::MAX as i128, i64::MAX as i128 + 1, u64::MAX as i128, i64::MIN as i128 + 1];
-const STR_POOL: [&str; 8] = ["", "a", "ab", "abc", "b", "ä", "a.c", "ba"];
+// ("(" is not a valid regular expression: a string property used as a tagged regex pattern can be invalid)
+const STR_POOL: [&str; 9] = ["", "a", "ab", "abc", "b", "ä", "a.c", "ba", "("];
 const FLOAT_POOL: [f64; 5] = [-1.5, 0.0, 2.5, 1e300, -0.0];
 
 pub fn gen_scalar(c: &mut Choices<'_>, base: &str) -> Value {
